@@ -769,7 +769,7 @@ func c01one(c *h.Ctx, r *h.Rand, g, snap, want orb.Geometry, isNil bool, order b
 			if fk == 4 && (srid&0xff == 0 || srid&0xff == 1 || srid&0xffff == 0x785c || srid&0xffff == 0x3030 || srid&0xffff == 0x3130) {
 				key = "C01/wkb-scanner-mysql-prefix-ambiguous"
 			}
-			c01judge(c, fail, key, "wkb.Scanner", k, fk, ok, exp, serr, serr == wkb.ErrIncorrectGeometry, s.Geometry, s.Valid, dst.val(k), 0, 0)
+			c01judge(c, fail, key, "wkb.Scanner", k, fk, ok, exp, serr, errors.Is(serr, wkb.ErrIncorrectGeometry), s.Geometry, s.Valid, dst.val(k), 0, 0)
 
 			// ewkb.Scanner / ScannerPrefixSRID
 			var es *ewkb.GeometryScanner
@@ -785,7 +785,7 @@ func c01one(c *h.Ctx, r *h.Rand, g, snap, want orb.Geometry, isNil bool, order b
 				continue
 			}
 			c.Eval()
-			c01judge(c, fail, "", "ewkb.Scanner", k, fk, ok, exp, serr, serr == ewkb.ErrIncorrectGeometry, es.Geometry, es.Valid, dst.val(k), es.SRID, srid)
+			c01judge(c, fail, "", "ewkb.Scanner", k, fk, ok, exp, serr, errors.Is(serr, ewkb.ErrIncorrectGeometry), es.Geometry, es.Valid, dst.val(k), es.SRID, srid)
 			if ok && serr == nil {
 				c01longRet[k].check(c)
 			}
